@@ -557,7 +557,19 @@ func (w *worker) check(j *job) {
 		fmt.Printf("body bytes: % x\n", m.CodeSection[0].Body)
 	}
 
-	// ---- the real front end
+	// ---- the real front end (a hang of the real code - e.g. a cycle in the alias table - must not hang the check)
+	done := make(chan struct{})
+	go func() {
+		select {
+		case <-done:
+		case <-time.After(60 * time.Second):
+			violate("impl-violation", "C01:frontcf-real-code-hangs", "the real front end / alias resolution / RunPasses did not finish within 60 s on this function", "termination", "timeout")
+			rep.Note("aborted: the real code hangs on %s", text)
+			rep.Write(w.orc)
+			os.Exit(1)
+		}
+	}()
+	defer close(done)
 	b, realText, p := lowerReal(m)
 	if p != nil {
 		violate("correspondence", "C01:frontcf-front-end-panics", fmt.Sprintf("the real front end panics on a function the real validator accepts: %v", p), "no panic", fmt.Sprint(p))
@@ -656,9 +668,8 @@ func (w *worker) check(j *job) {
 	realTok, err := toTokens(realLines, realAl, f.results)
 	if err != nil {
 		rep.Count("real:unconvertible")
-		if textEqual {
-			hx.Fatal("the real output equals the model's but cannot be converted: %v\n%s", err, realCanon)
-		}
+		violate("impl-violation", "C01:frontcf-real-output-unconvertible",
+			"the REAL front end's output cannot be read as a function of the SSA fragment (a use of a value that has neither a definition nor an alias, an unknown instruction, …): "+err.Error()+"; real output: "+realCanon, "convertible", err.Error())
 		realTok = ""
 	}
 	optTok := ""
@@ -945,9 +956,9 @@ func main() {
 		jobs <- &job{f: f, args: handArgs(f, func() []uint64 { return genArgs(r, f.params) }), hand: true, index: idx}
 		idx++
 	}
-	total := 2500
+	total := 3000
 	if hx.Thorough() {
-		total = 120000
+		total = 300000
 	}
 	if *n > 0 {
 		total = *n
